@@ -202,3 +202,13 @@ def take_periods(prop, tier, seed):
 def coarse_beyond(prop, tier, seed):
     return dict(bounded=run_cases(sc.check_coarse_beyond_horizon, [dict(freq='d', days_beyond=2), dict(freq='4h', days_beyond=1)],
                                   'coarse-frequency asset whose window ends after the horizon', '2 cases', 10))
+
+
+@provider('C01', 'C04', 'C05', 'C18', 'C20')
+def output_contract(prop, tier, seed):
+    rng = random.Random(seed + 17)
+    cases = [dict(T=rng.randint(3, 6), seed=rng.randint(0, 99999)) for _ in range(_n(tier, 30, 200))]
+    b = run_cases(sc.check_extract_output, cases, 'run-time contract of io.extract_output on random portfolios (2-5 assets from 10 kinds incl. two-node storage, MIP storage, plant, order book, scaled, multi-commodity; random order and windows) with ARBITRARY result vectors and duals: every output table equals the stated function of (mapping, x, duals)',
+                  'grids of 3-6 steps', 40 if tier == 'quick' else 240)
+    b['failures'] = [f for f in b['failures'] if f['name'].startswith(prop) or f.get('error')]
+    return dict(bounded=b)
